@@ -23,6 +23,12 @@ from mypy.nodes import (
 ConstantValue = int | bool | float | complex | str
 CONST_TYPES: Final = (int, bool, float, complex, str)
 
+# Results larger than this are not folded: computing them can take unbounded time and memory
+# (for example 10 ** 10 ** 10, 1 << 10**12 or "a" * 10**12), and nothing needs such constants.
+# The bounds are checked on the operands, before the operation is evaluated.
+MAX_FOLDED_INT_BITS: Final = 1 << 16
+MAX_FOLDED_STR_LENGTH: Final = 1 << 16
+
 
 def constant_fold_expr(expr: Expression, cur_mod_id: str) -> ConstantValue | None:
     """Return the constant value of an expression for supported operations.
@@ -103,10 +109,16 @@ def _constant_fold_binary_op(
 
     # String concatenation and multiplication.
     if op == "+" and isinstance(left, str) and isinstance(right, str):
+        if len(left) + len(right) > MAX_FOLDED_STR_LENGTH:
+            return None
         return left + right
     elif op == "*" and isinstance(left, str) and isinstance(right, int):
+        if len(left) * right > MAX_FOLDED_STR_LENGTH:
+            return None
         return left * right
     elif op == "*" and isinstance(left, int) and isinstance(right, str):
+        if left * len(right) > MAX_FOLDED_STR_LENGTH:
+            return None
         return left * right
 
     # Complex construction.
@@ -128,6 +140,8 @@ def constant_fold_binary_int_op(op: str, left: int, right: int) -> int | float |
     if op == "-":
         return left - right
     elif op == "*":
+        if left.bit_length() + right.bit_length() > MAX_FOLDED_INT_BITS:
+            return None
         return left * right
     elif op == "/":
         if right != 0:
@@ -146,12 +160,16 @@ def constant_fold_binary_int_op(op: str, left: int, right: int) -> int | float |
         return left ^ right
     elif op == "<<":
         if right >= 0:
+            if left.bit_length() + right > MAX_FOLDED_INT_BITS:
+                return None
             return left << right
     elif op == ">>":
         if right >= 0:
             return left >> right
     elif op == "**":
         if right >= 0:
+            if left.bit_length() * right > MAX_FOLDED_INT_BITS:
+                return None
             ret = left**right
             assert isinstance(ret, int)
             return ret
